@@ -27,6 +27,7 @@ import (
 type propSpec struct {
 	World    string
 	Race     bool
+	More     []string // further worlds that also serve the property (same race flag); the budget is split
 	Level    string
 	Quick    float64 // per-worker wall budget, seconds
 	Thorough float64
@@ -157,9 +158,7 @@ func main() {
 		b = *budget
 	}
 	start := time.Now()
-	bin := build(spec.World, spec.Race)
-	buildS := time.Since(start).Seconds()
-
+	worlds := append([]string{spec.World}, spec.More...)
 	tmp, err := os.MkdirTemp("/var/tmp", "vcheck.")
 	if err != nil {
 		fatal2("%v", err)
@@ -169,36 +168,56 @@ func main() {
 	_ = os.MkdirAll(replayDir, 0o755)
 	known := filepath.Join(verifDir, "known_findings.json")
 
-	reports := make([]*workerReport, n)
-	exits := make([]int, n)
-	outputs := make([]string, n)
+	bins := map[string]string{}
+	for _, wname := range worlds {
+		bins[wname] = build(wname, spec.Race)
+	}
+	buildS := time.Since(start).Seconds()
+	// workers are split between the worlds that serve the property
+	total0 := n
+	var reports []*workerReport
+	var exits []int
+	var outputs []string
+	var binOf []string
 	var wg sync.WaitGroup
-	for i := 0; i < n; i++ {
+	var mu sync.Mutex
+	for i := 0; i < total0; i++ {
+		wname := worlds[i%len(worlds)]
+		bin := bins[wname]
+		idx := len(reports)
+		reports = append(reports, nil)
+		exits = append(exits, 0)
+		outputs = append(outputs, "")
+		binOf = append(binOf, bin)
 		wg.Add(1)
-		go func(i int) {
+		go func(i, idx int, bin string) {
 			defer wg.Done()
 			out := filepath.Join(tmp, fmt.Sprintf("w%d.json", i))
 			cmd := exec.Command(bin, "-prop", prop, "-tier", *tier, "-seed", strconv.FormatUint(seed, 10), "-worker", strconv.Itoa(i),
 				"-budget", fmt.Sprint(b), "-out", out, "-replaydir", replayDir, "-known", known)
-			cmd.Env = append(os.Environ(), "GOMAXPROCS=2", "GORACE=halt_on_error=0")
+			cmd.Env = append(os.Environ(), "GOMAXPROCS=2", "GORACE=halt_on_error=0 exitcode=0 log_path="+filepath.Join(tmp, fmt.Sprintf("race.w%d", i)))
 			ob, err := cmd.CombinedOutput()
-			outputs[i] = string(ob)
+			mu.Lock()
+			defer mu.Unlock()
+			outputs[idx] = string(ob)
 			if err != nil {
 				if ee, ok := err.(*exec.ExitError); ok {
-					exits[i] = ee.ExitCode()
+					exits[idx] = ee.ExitCode()
 				} else {
-					exits[i] = 2
+					exits[idx] = 2
 				}
 			}
 			if rb, err := os.ReadFile(out); err == nil {
 				var r workerReport
 				if json.Unmarshal(rb, &r) == nil {
-					reports[i] = &r
+					reports[idx] = &r
 				}
 			}
-		}(i)
+		}(i, idx, bin)
 	}
 	wg.Wait()
+	bin := bins[spec.World]
+	_ = bin
 
 	// merge
 	total := &workerReport{Stats: map[string]int{}, Known: map[string]int{}, KnownReplays: map[string]string{}}
@@ -256,7 +275,7 @@ func main() {
 	// confirm violations by replaying in a fresh process
 	confirmed := []string{}
 	for _, v := range total.Violations {
-		code := runReplay(bin, v)
+		code := runReplay(binForReplay(bins, v, bin), v)
 		if code == 1 {
 			confirmed = append(confirmed, v)
 		} else {
@@ -327,9 +346,28 @@ func tail(s string, n int) string {
 	return s
 }
 
+// binForReplay picks the world binary named in the replay file.
+func binForReplay(bins map[string]string, file, def string) string {
+	b, err := os.ReadFile(file)
+	if err != nil {
+		return def
+	}
+	var r struct {
+		World string `json:"world"`
+	}
+	if json.Unmarshal(b, &r) == nil {
+		if p, ok := bins[r.World]; ok {
+			return p
+		}
+	}
+	return def
+}
+
 func runReplay(bin, file string) int {
 	cmd := exec.Command(bin, "-replay", file)
-	cmd.Env = append(os.Environ(), "GORACE=halt_on_error=0")
+	rt, _ := os.MkdirTemp("/var/tmp", "vreplay.")
+	defer os.RemoveAll(rt)
+	cmd.Env = append(os.Environ(), "GORACE=halt_on_error=0 exitcode=0 log_path="+filepath.Join(rt, "race"))
 	if err := cmd.Run(); err != nil {
 		if ee, ok := err.(*exec.ExitError); ok {
 			return ee.ExitCode()
@@ -355,10 +393,18 @@ func doReplay(file string) int {
 	if !ok {
 		fatal2("replay file names unknown property %q", r.Property)
 	}
-	bin := build(spec.World, spec.Race)
+	wname := spec.World
+	for _, m := range spec.More {
+		if m == r.World {
+			wname = m
+		}
+	}
+	bin := build(wname, spec.Race)
 	cmd := exec.Command(bin, "-replay", file)
 	cmd.Stdout, cmd.Stderr = os.Stdout, os.Stderr
-	cmd.Env = append(os.Environ(), "GORACE=halt_on_error=0")
+	rt, _ := os.MkdirTemp("/var/tmp", "vreplay.")
+	defer os.RemoveAll(rt)
+	cmd.Env = append(os.Environ(), "GORACE=halt_on_error=0 exitcode=0 log_path="+filepath.Join(rt, "race"))
 	if err := cmd.Run(); err != nil {
 		if ee, ok := err.(*exec.ExitError); ok {
 			if ee.ExitCode() == 1 {
@@ -417,7 +463,7 @@ func writeEvidence(prop, tier string, seed uint64, spec propSpec, t *workerRepor
 		"distinct_quiescent_states": states,
 		"inconclusive":             t.Inconclusive,
 		"known_findings_seen":      t.Known,
-		"real_vs_stub":             realVsStub[spec.World],
+		"real_vs_stub":             realVsStubFor(spec),
 		"build_seconds":            buildS,
 		"infrastructure_trouble":   infra,
 		"exhaustive":               false,
@@ -438,4 +484,15 @@ func writeEvidence(prop, tier string, seed uint64, spec propSpec, t *workerRepor
 	if err := os.WriteFile(filepath.Join(dir, prop+".json"), b, 0o644); err != nil {
 		fatal2("%v", err)
 	}
+}
+
+func realVsStubFor(spec propSpec) interface{} {
+	if len(spec.More) == 0 {
+		return realVsStub[spec.World]
+	}
+	out := map[string]interface{}{spec.World: realVsStub[spec.World]}
+	for _, m := range spec.More {
+		out[m] = realVsStub[m]
+	}
+	return out
 }
